@@ -14,6 +14,7 @@ import (
 	"bytes"
 	"context"
 	"fmt"
+	"math/bits"
 	"os"
 	"regexp" // standard library engine on purpose (zoekt: grafana/regexp, go-re2)
 	"sort"
@@ -326,6 +327,9 @@ scan:
 	}
 	if kind == "text" {
 		p.st.Labels["bare"] = true
+		if raw[0] == '(' {
+			p.st.Labels["pattern:parenthesised-single-token"] = true
+		}
 	}
 	val, err := p.decode(rest)
 	if err != nil {
@@ -333,6 +337,20 @@ scan:
 	}
 	if val == "" {
 		return nil, c06Rejectf("empty value")
+	}
+	switch kind {
+	case "text", "content", "regex", "file", "sym":
+		if c06IsLiteral(val) {
+			p.st.Labels["pattern:literal"] = true
+		} else {
+			p.st.Labels["pattern:regexp-operators"] = true
+		}
+	case "lang":
+		if l, ok := c06LangAlias[strings.ToLower(val)]; !ok {
+			p.st.Labels["lang:unknown"] = true
+		} else if !strings.EqualFold(l, val) {
+			p.st.Labels["lang:alias"] = true
+		}
 	}
 	switch kind {
 	case "archived", "fork", "public":
@@ -412,6 +430,10 @@ type c06Reading struct {
 	// reading of the document (it says "uppercase letters"); used by the
 	// recognizer of known finding C06-case-auto-nonascii-upper.
 	ASCIIUpper bool
+	// WordClassUpper: case:auto treats \w (whose expansion [0-9A-Za-z_] has
+	// A-Z in it) like an upper-case letter. Not a reading of the document
+	// either; recognizer of known finding C06-case-auto-word-class.
+	WordClassUpper bool
 }
 
 type c06Interp struct {
@@ -426,7 +448,13 @@ type c06Flags struct {
 	usesBare, usesRegexField, usesMeta, usesAnchor bool
 	escUpperOnly                                    bool // an auto-mode pattern whose only upper-case letters are escape classes (\S \W \D \B …), or inline flags
 	nonASCIIUpperAuto                               bool // an auto-mode pattern with a non-ASCII upper-case letter and no ASCII one
+	wordClassAuto                                   bool // an auto-mode pattern with \w and no ASCII upper-case letter
+	invalid                                         error // a pattern the standard library does not compile
+	autoUpper, autoLower                            bool  // auto-mode patterns with / without upper-case letters
 }
+
+// c06InlineFlags matches (?i) (?s: … but not (?: and (?P<.
+var c06InlineFlags = regexp.MustCompile(`\(\?[^:P]`)
 
 // c06Analyze walks the parsed string with the same case scoping as the interpreter.
 func c06Analyze(g *c06Group, mode string, f *c06Flags) {
@@ -435,6 +463,12 @@ func c06Analyze(g *c06Group, mode string, f *c06Flags) {
 	}
 	for _, conj := range g.Conjs {
 		for _, n := range conj {
+			switch n.Kind {
+			case "text", "regex", "content", "file", "sym", "repo", "meta":
+				if _, err := regexp.Compile(n.Val); err != nil && f.invalid == nil {
+					f.invalid = err
+				}
+			}
 			switch n.Kind {
 			case "group":
 				c06Analyze(n.Group, mode, f)
@@ -453,16 +487,24 @@ func c06Analyze(g *c06Group, mode string, f *c06Flags) {
 				}
 				fallthrough
 			case "file", "sym":
-				if strings.Contains(n.Val, "(?") {
+				if c06InlineFlags.MatchString(n.Val) {
 					f.escUpperOnly = true
 				}
 				if mode == "auto" {
-					ascii, other, esc := c06Upper(n.Val)
+					ascii, other, esc, wordClass := c06Upper(n.Val)
 					if esc && !ascii && !other {
 						f.escUpperOnly = true
 					}
 					if other && !ascii {
 						f.nonASCIIUpperAuto = true
+					}
+					if wordClass && !ascii {
+						f.wordClassAuto = true
+					}
+					if ascii || other {
+						f.autoUpper = true
+					} else {
+						f.autoLower = true
 					}
 				}
 			}
@@ -483,12 +525,14 @@ const c06RegexpOps = `\.+*?()|[]{}^$`
 func c06IsLiteral(v string) bool { return !strings.ContainsAny(v, c06RegexpOps) }
 
 // c06Upper looks for upper-case letters in a pattern: ASCII ones, other ones,
-// and ones that only name an escape class.
-func c06Upper(v string) (ascii, other, esc bool) {
+// ones that only name an escape class, and the class \w.
+func c06Upper(v string) (ascii, other, esc, wordClass bool) {
 	for i := 0; i < len(v); {
 		if v[i] == '\\' && i+1 < len(v) {
 			if c := v[i+1]; c >= 'A' && c <= 'Z' {
 				esc = true
+			} else if c == 'w' {
+				wordClass = true
 			}
 			_, sz := utf8.DecodeRuneInString(v[i+1:])
 			i += 1 + sz
@@ -507,11 +551,11 @@ func c06Upper(v string) (ascii, other, esc bool) {
 
 // upper reports whether the pattern "contains uppercase letters".
 func (in *c06Interp) upper(v string) bool {
-	ascii, other, _ := c06Upper(v)
+	ascii, other, _, wordClass := c06Upper(v)
 	if in.rd.ASCIIUpper {
-		return ascii
+		other = false
 	}
-	return ascii || other
+	return ascii || other || in.rd.WordClassUpper && wordClass
 }
 
 func (in *c06Interp) compile(v string, sensitive, multiline, anchored bool) *regexp.Regexp {
@@ -695,18 +739,26 @@ func c06SameSet(a, b map[string]bool) bool {
 }
 
 type c06Oracle struct {
+	fl          c06Flags
 	want        map[string]bool
 	ambiguous   string          // non-empty: the document does not decide this string on this corpus
-	asciiUpper  map[string]bool // result under the ASCII-only case:auto rule (recognizer of a known finding)
-	nonASCIIUp  bool
+	alts        []c06Alt // results under the deviating case:auto rules of the known findings
+}
+
+type c06Alt struct {
+	known string
+	set   map[string]bool
 }
 
 // c06Expected interprets g under every reading of the silent points.
 func c06Expected(c *kit.Corpus, g *c06Group, cache map[string]*regexp.Regexp) (*c06Oracle, error) {
 	var fl c06Flags
 	c06Analyze(g, "auto", &fl)
+	if fl.invalid != nil {
+		return nil, fl.invalid
+	}
 	base := &c06Interp{c: c, res: cache}
-	o := &c06Oracle{want: base.expected(g)}
+	o := &c06Oracle{fl: fl, want: base.expected(g)}
 	if base.err != nil {
 		return nil, base.err
 	}
@@ -749,10 +801,18 @@ func c06Expected(c *kit.Corpus, g *c06Group, cache map[string]*regexp.Regexp) (*
 			return o, nil
 		}
 	}
+	alt := func(known string, rd c06Reading) {
+		in := &c06Interp{c: c, res: cache, rd: rd}
+		o.alts = append(o.alts, c06Alt{known, in.expected(g)})
+	}
 	if fl.nonASCIIUpperAuto {
-		o.nonASCIIUp = true
-		in := &c06Interp{c: c, res: cache, rd: c06Reading{ASCIIUpper: true}}
-		o.asciiUpper = in.expected(g)
+		alt("C06-case-auto-nonascii-upper", c06Reading{ASCIIUpper: true})
+	}
+	if fl.wordClassAuto {
+		alt("C06-case-auto-word-class", c06Reading{WordClassUpper: true})
+	}
+	if fl.nonASCIIUpperAuto && fl.wordClassAuto {
+		alt("C06-case-auto-word-class", c06Reading{ASCIIUpper: true, WordClassUpper: true})
 	}
 	return o, nil
 }
@@ -815,10 +875,11 @@ type c06Case struct {
 	Via     string // "shard": bare index searchers (type:repo strings still go through the directory searcher); "dir": everything through search.NewDirectorySearcher
 }
 
-var c06CorpusOpts = kit.CorpusOpts{MaxRepos: 3, MaxDocs: 6, MaxTokens: 1, Compound: 25}
+var c06CorpusOpts = kit.CorpusOpts{MaxRepos: 3, MaxDocs: 6, MaxTokens: 1, Compound: 20}
 
 func c06GenCorpus(g kit.G) kit.Corpus {
 	c := kit.GenCorpus(g, c06CorpusOpts)
+	u := c06U{g.T}
 	for i := range c.Repos {
 		r := &c.Repos[i]
 		rename := map[string]string{}
@@ -828,7 +889,7 @@ func c06GenCorpus(g kit.G) kit.Corpus {
 			d := &r.Docs[j]
 			nn, ok := rename[d.Name]
 			if !ok {
-				k := g.Int(0, len(c06Names)-1, "name")
+				k := u.rng(0, len(c06Names)-1, "name")
 				for taken[c06Names[k]] {
 					k = (k + 1) % len(c06Names)
 				}
@@ -840,16 +901,16 @@ func c06GenCorpus(g kit.G) kit.Corpus {
 			d.Language = c06LangFor(nn)
 			var sb strings.Builder
 			var toks [][2]int
-			n := g.Int(0, 9, "ntok")
+			n := u.rng(0, 9, "ntok")
 			for k := 0; k < n; k++ {
 				st := sb.Len()
-				sb.WriteString(kit.Pick(g, c06Words, "w"))
+				sb.WriteString(c06Pick(u, c06Words, "w"))
 				toks = append(toks, [2]int{st, sb.Len()})
 				if k < n-1 {
-					sb.WriteString(kit.Pick(g, c06Seps, "sep"))
+					sb.WriteString(c06Pick(u, c06Seps, "sep"))
 				}
 			}
-			if n > 0 && g.Bool(60, "nl") {
+			if n > 0 && u.pct(60, "nl") {
 				sb.WriteString("\n")
 			}
 			// same-named documents of a repository are distinct blobs
@@ -857,9 +918,9 @@ func c06GenCorpus(g kit.G) kit.Corpus {
 			seen[nn]++
 			d.Content = kit.Text(sb.String())
 			d.Symbols = nil
-			if g.Bool(50, "syms") {
+			if u.pct(50, "syms") {
 				for _, tk := range toks {
-					if g.Bool(35, "sym") {
+					if u.pct(35, "sym") {
 						d.Symbols = append(d.Symbols, kit.Sym{Start: tk[0], End: tk[1], Kind: "function"})
 					}
 				}
@@ -873,8 +934,39 @@ func c06GenCorpus(g kit.G) kit.Corpus {
 // Generator of query strings from the documented EBNF
 // ---------------------------------------------------------------------------
 
+// c06U draws uniformly. rapid's IntRange is deliberately biased towards small
+// values, which would turn every "30 %" below into "most of the time"; single
+// rapid.Bool draws are fair bits, and all-zero bits (what shrinking converges
+// to) mean "no" / the first alternative.
+type c06U struct{ t *rapid.T }
+
+func (u c06U) intn(n int) int {
+	if n <= 1 {
+		return 0
+	}
+	k := bits.Len(uint(n - 1))
+	for try := 0; try < 6; try++ {
+		v := 0
+		for i := 0; i < k; i++ {
+			v <<= 1
+			if rapid.Bool().Draw(u.t, "bit") {
+				v |= 1
+			}
+		}
+		if v < n {
+			return v
+		}
+	}
+	return 0
+}
+
+func (u c06U) rng(lo, hi int, _ string) int { return lo + u.intn(hi-lo+1) }
+func (u c06U) pct(p int, _ string) bool     { return u.intn(100) >= 100-p }
+
+func c06Pick[T any](u c06U, xs []T, _ string) T { return xs[u.intn(len(xs))] }
+
 type c06Gen struct {
-	g        kit.G
+	u        c06U
 	c        *kit.Corpus
 	contents []string
 	names    []string
@@ -882,7 +974,7 @@ type c06Gen struct {
 }
 
 func newC06Gen(g kit.G, c *kit.Corpus) *c06Gen {
-	x := &c06Gen{g: g, c: c}
+	x := &c06Gen{u: c06U{g.T}, c: c}
 	for i := range c.Repos {
 		for j := range c.Repos[i].Docs {
 			d := &c.Repos[i].Docs[j]
@@ -906,7 +998,7 @@ func (x *c06Gen) weighted(label string, w ...int) int {
 	for _, v := range w {
 		tot += v
 	}
-	k := x.g.Int(0, tot-1, label)
+	k := x.u.rng(0, tot-1, label)
 	for i, v := range w {
 		if k < v {
 			return i
@@ -916,13 +1008,13 @@ func (x *c06Gen) weighted(label string, w ...int) int {
 	return len(w) - 1
 }
 
-func c06Substring(g kit.G, s string, lo, hi int) string {
+func c06Substring(g c06U, s string, lo, hi int) string {
 	rs := []rune(s)
 	if len(rs) == 0 {
 		return ""
 	}
-	n := g.Int(min(lo, len(rs)), min(hi, len(rs)), "sublen")
-	st := g.Int(0, len(rs)-n, "substart")
+	n := g.rng(min(lo, len(rs)), min(hi, len(rs)), "sublen")
+	st := g.rng(0, len(rs)-n, "substart")
 	return string(rs[st : st+n])
 }
 
@@ -940,7 +1032,7 @@ func (x *c06Gen) recase(s string) string {
 	case 3:
 		rs := []rune(s)
 		for i := range rs {
-			if x.g.Bool(40, "flip") {
+			if x.u.pct(40, "flip") {
 				if unicode.IsUpper(rs[i]) {
 					rs[i] = unicode.ToLower(rs[i])
 				} else {
@@ -958,15 +1050,15 @@ func (x *c06Gen) contentLiteral() string {
 	var s string
 	switch x.weighted("clit", 35, 35, 15, 15) {
 	case 0:
-		s = kit.Pick(x.g, c06Words, "w")
+		s = c06Pick(x.u, c06Words, "w")
 	case 1:
 		if len(x.contents) > 0 {
-			s = c06Substring(x.g, kit.Pick(x.g, x.contents, "doc"), 2, 9)
+			s = c06Substring(x.u, c06Pick(x.u, x.contents, "doc"), 2, 9)
 		}
 	case 2:
-		s = kit.Pick(x.g, c06Words, "w1") + " " + kit.Pick(x.g, c06Words, "w2")
+		s = c06Pick(x.u, c06Words, "w1") + " " + c06Pick(x.u, c06Words, "w2")
 	case 3:
-		s = kit.Pick(x.g, c06Words, "w") + kit.Pick(x.g, []string{"z", "o", "b", " a", "x"}, "mut")
+		s = c06Pick(x.u, c06Words, "w") + c06Pick(x.u, []string{"z", "o", "b", " a", "x"}, "mut")
 	}
 	s = c06Clean(s)
 	if strings.TrimSpace(s) == "" {
@@ -975,12 +1067,12 @@ func (x *c06Gen) contentLiteral() string {
 	return x.recase(s)
 }
 
-func (x *c06Gen) word() string { return regexp.QuoteMeta(x.recase(kit.Pick(x.g, c06Words[:31], "rw"))) }
+func (x *c06Gen) word() string { return regexp.QuoteMeta(x.recase(c06Pick(x.u, c06Words[:31], "rw"))) }
 
 // contentRegexp draws a regular expression (with operators) aimed at contents.
 // No ^ $ (text vs line anchors), no upper-case escape classes, no inline flags.
 func (x *c06Gen) contentRegexp() string {
-	switch x.g.Int(0, 13, "cre") {
+	switch x.u.rng(0, 13, "cre") {
 	case 0:
 		return x.word() + ".*" + x.word()
 	case 1:
@@ -990,41 +1082,45 @@ func (x *c06Gen) contentRegexp() string {
 	case 3:
 		return x.word() + `\s+` + x.word()
 	case 4:
-		return kit.Pick(x.g, []string{"fo+", "Fo+", "ab+a", "o{2}", "(ab)+", "a?ba", "fo*b", "FO+"}, "rep")
+		return c06Pick(x.u, []string{"fo+", "Fo+", "ab+a", "o{2}", "(ab)+", "a?ba", "fo*b", "FO+"}, "rep")
 	case 5:
 		return x.word() + "[a-z]*"
 	case 6:
-		return kit.Pick(x.g, []string{"ba[rz]", "[fb]oo", "[A-Z]oo", "[BF][ao]", "b[^a]r", "[a-f]{3}"}, "cls")
+		return c06Pick(x.u, []string{"ba[rz]", "[fb]oo", "[A-Z]oo", "[BF][ao]", "b[^a]r", "[a-f]{3}"}, "cls")
 	case 7:
-		return `\b` + kit.Pick(x.g, []string{"foo", "bar", "ab", "Foo", "and", "or", "aba"}, "bw") + `\b`
+		return `\b` + c06Pick(x.u, []string{"foo", "bar", "ab", "Foo", "and", "or", "aba"}, "bw") + `\b`
 	case 8:
 		return x.word() + `\w*`
 	case 9:
-		return kit.Pick(x.g, []string{"f.o", "b.r", "a.b", "fo.", ".oo", "B.r"}, "dot")
+		return c06Pick(x.u, []string{"f.o", "b.r", "a.b", "fo.", ".oo", "B.r"}, "dot")
 	case 10:
-		return kit.Pick(x.g, []string{"f(o|a)o", "(foo|bar)+", "(foo)?bar", "ba(r|z)", "(a|b)(b|a)", "(Foo|bar)"}, "grp")
+		return c06Pick(x.u, []string{"f(o|a)o", "(foo|bar)+", "(foo)?bar", "ba(r|z)", "(a|b)(b|a)", "(Foo|bar)"}, "grp")
 	case 11:
 		return x.word() + " " + x.word() + "?"
 	case 12:
 		return x.word() + `\d*` + x.word()
 	default:
-		return kit.Pick(x.g, []string{`a\.b`, `a\+b`, `f\(o\)`, `foo\.bar`, `b\|d`, `\$foo`, `a\\b`, `\[ab\]`, `foo\?`}, "esc") + kit.Pick(x.g, []string{"", "", "?", ".*"}, "esctail")
+		return c06Pick(x.u, []string{`a\.b`, `a\+b`, `f\(o\)`, `foo\.bar`, `b\|d`, `\$foo`, `a\\b`, `\[ab\]`, `foo\?`}, "esc") + c06Pick(x.u, []string{"", "", "?", ".*"}, "esctail")
 	}
 }
 
 func (x *c06Gen) fileLiteral() string {
-	s := c06Substring(x.g, kit.Pick(x.g, x.names, "fn"), 2, 7)
-	if x.g.Bool(15, "fmiss") {
+	s := c06Substring(x.u, c06Pick(x.u, x.names, "fn"), 2, 7)
+	if x.u.pct(15, "fmiss") {
 		s += "q"
 	}
 	return x.recase(s)
 }
 
 func (x *c06Gen) fileRegexp() string {
-	return x.recase(kit.Pick(x.g, []string{
+	re := c06Pick(x.u, []string{
 		`\.py$`, `^pkg/`, `list\.(c|h)$`, `[kl]i[st]`, `_test`, `\.(c|h)$`, `^[^/]+$`, `/.*/`, `\.g$`, `^sys/.*\.c$`, `util|kit`,
 		`(?:util|list)\.`, `c\+\+`, `v1\.5`, `the guile`, `^x$`, `t.t`, `e+`, `[A-Z]{3}`, `\.(txt|mk)$`, `^(pkg|sys)/`,
-	}, "fre"))
+	}, "fre")
+	if strings.Contains(re, "A-Z") {
+		return re // a character range must not be re-cased
+	}
+	return x.recase(re)
 }
 
 // renderText renders a value (a regular expression source) as quoted or
@@ -1067,78 +1163,78 @@ func (x *c06Gen) renderText(prefix, re string) string {
 	if strings.ContainsAny(re, ` "`) {
 		pq = 60
 	}
-	if needQuote || x.g.Bool(pq, "quote") {
+	if needQuote || x.u.pct(pq, "quote") {
 		return prefix + `"` + strings.NewReplacer(`\`, `\\`, `"`, `\"`).Replace(re) + `"`
 	}
 	return prefix + unq
 }
 
-func (x *c06Gen) alias(label string, forms ...string) string { return kit.Pick(x.g, forms, label) }
+func (x *c06Gen) alias(label string, forms ...string) string { return c06Pick(x.u, forms, label) }
 
 func (x *c06Gen) atom() string {
 	switch x.weighted("atom", 30, 14, 5, 13, 6, 7, 7, 6, 7, 5) {
 	case 0: // bare pattern
-		if x.g.Bool(35, "re") {
+		if x.u.pct(35, "re") {
 			return x.renderText("", x.contentRegexp())
 		}
-		if x.g.Bool(6, "tightpat") {
+		if x.u.pct(6, "tightpat") {
 			// (x) around one bare pattern: a group or a regexp group, same documents either way
-			if w := kit.Pick(x.g, c06Words[:31], "tw"); w != "or" {
+			if w := c06Pick(x.u, c06Words[:31], "tw"); w != "or" {
 				return "(" + w + ")"
 			}
 		}
 		return x.renderText("", regexp.QuoteMeta(x.contentLiteral()))
 	case 1:
 		p := x.alias("calias", "content:", "c:")
-		if x.g.Bool(35, "re") {
+		if x.u.pct(35, "re") {
 			return x.renderText(p, x.contentRegexp())
 		}
 		return x.renderText(p, regexp.QuoteMeta(x.contentLiteral()))
 	case 2:
-		if x.g.Bool(60, "re") {
+		if x.u.pct(60, "re") {
 			return x.renderText("regex:", x.contentRegexp())
 		}
 		return x.renderText("regex:", regexp.QuoteMeta(x.contentLiteral()))
 	case 3:
 		p := x.alias("falias", "file:", "f:")
-		if x.g.Bool(45, "re") {
+		if x.u.pct(45, "re") {
 			return x.renderText(p, x.fileRegexp())
 		}
 		return x.renderText(p, regexp.QuoteMeta(x.fileLiteral()))
 	case 4:
 		p := x.alias("ralias", "repo:", "r:")
-		return x.renderText(p, kit.Pick(x.g, []string{"foo", "github", "^r1$", "a/", `github\.com/a/`, "foo$", "(foo|bar)$", "gitlab|r1", "nope", `\.com`, "b.r", "r"}, "rpat"))
+		return x.renderText(p, c06Pick(x.u, []string{"foo", "github", "^r1$", "a/", `github\.com/a/`, "foo$", "(foo|bar)$", "gitlab|r1", "nope", `\.com`, "b.r", "r"}, "rpat"))
 	case 5:
 		p := x.alias("balias", "branch:", "b:")
-		v := kit.Pick(x.g, []string{"HEAD", "HEAD", "main", "dev", "release", "feature/x", "feature", "v1.0", "e", "nope", "a"}, "bpat")
-		if x.g.Bool(15, "bq") {
+		v := c06Pick(x.u, []string{"HEAD", "HEAD", "main", "dev", "release", "feature/x", "feature", "v1.0", "e", "nope", "a"}, "bpat")
+		if x.u.pct(15, "bq") {
 			return p + `"` + v + `"`
 		}
 		return p + v
 	case 6:
-		v := kit.Pick(x.g, []string{"go", "golang", "Go", "python", "py", "Python", "c", "C", "text", "markdown", "md", "shell", "sh", "bash", "zzz"}, "lang")
-		if x.g.Bool(10, "lq") {
+		v := c06Pick(x.u, []string{"go", "golang", "Go", "python", "py", "Python", "c", "C", "text", "markdown", "md", "shell", "sh", "bash", "zzz"}, "lang")
+		if x.u.pct(10, "lq") {
 			return `lang:"` + v + `"`
 		}
 		return "lang:" + v
 	case 7:
 		var v string
-		if len(x.symbols) > 0 && x.g.Bool(60, "symfrom") {
-			v = regexp.QuoteMeta(x.recase(c06Substring(x.g, kit.Pick(x.g, x.symbols, "symw"), 2, 6)))
-		} else if x.g.Bool(50, "symre") {
-			v = kit.Pick(x.g, []string{"^foo$", "foo|bar", "fo+", "^ba[rz]$", "^[A-Z]", "a.b", "^ab"}, "symre2")
+		if len(x.symbols) > 0 && x.u.pct(60, "symfrom") {
+			v = regexp.QuoteMeta(x.recase(c06Substring(x.u, c06Pick(x.u, x.symbols, "symw"), 2, 6)))
+		} else if x.u.pct(50, "symre") {
+			v = c06Pick(x.u, []string{"^foo$", "foo|bar", "fo+", "^ba[rz]$", "^[A-Z]", "a.b", "^ab"}, "symre2")
 		} else {
 			v = x.word()
 		}
 		return x.renderText("sym:", v)
 	case 8:
-		return kit.Pick(x.g, []string{"archived:", "fork:", "public:"}, "boolf") + kit.Pick(x.g, []string{"yes", "no"}, "boolv")
+		return c06Pick(x.u, []string{"archived:", "fork:", "public:"}, "boolf") + c06Pick(x.u, []string{"yes", "no"}, "boolv")
 	default:
-		switch x.g.Int(0, 2, "metaf") {
+		switch x.u.rng(0, 2, "metaf") {
 		case 0:
-			return x.renderText("meta.team:", kit.Pick(x.g, []string{"alpha", "beta", "alphabet", "^alpha$", "al.*", "a", "nope", "^(alpha|beta)$", "bet"}, "mteam"))
+			return x.renderText("meta.team:", c06Pick(x.u, []string{"alpha", "beta", "alphabet", "^alpha$", "al.*", "a", "nope", "^(alpha|beta)$", "bet"}, "mteam"))
 		case 1:
-			return x.renderText("meta.lang:", kit.Pick(x.g, []string{"go", "py", "g.", "^go$", "^(go|py)$"}, "mlang"))
+			return x.renderText("meta.lang:", c06Pick(x.u, []string{"go", "py", "g.", "^go$", "^(go|py)$"}, "mlang"))
 		}
 		return "meta.nope:x"
 	}
@@ -1158,21 +1254,21 @@ func (x *c06Gen) query(depth int) (string, bool) {
 		}
 	}
 	insert := func(tok string) {
-		i := x.g.Int(0, nconj-1, "dirconj")
-		k := x.g.Int(0, len(conjs[i]), "dirpos")
+		i := x.u.rng(0, nconj-1, "dirconj")
+		k := x.u.rng(0, len(conjs[i]), "dirpos")
 		conjs[i] = append(conjs[i][:k], append([]string{tok}, conjs[i][k:]...)...)
 		ntok++
 	}
-	if x.g.Bool(30, "case") {
-		insert("case:" + kit.Pick(x.g, []string{"yes", "yes", "no", "no", "auto"}, "casev"))
+	if x.u.pct(30, "case") {
+		insert("case:" + c06Pick(x.u, []string{"yes", "yes", "no", "no", "auto"}, "casev"))
 	}
-	if x.g.Bool(14, "type") {
-		insert(x.alias("talias", "type:", "t:") + kit.Pick(x.g, []string{"repo", "repo", "repo", "file", "file", "filename", "filename", "filematch"}, "typev"))
+	if x.u.pct(14, "type") {
+		insert(x.alias("talias", "type:", "t:") + c06Pick(x.u, []string{"repo", "repo", "repo", "file", "file", "filename", "filename", "filematch"}, "typev"))
 	}
 	parts := make([]string, nconj)
 	for i := range conjs {
 		sep := " "
-		if x.g.Bool(4, "wide") {
+		if x.u.pct(4, "wide") {
 			sep = "  "
 		}
 		parts[i] = strings.Join(conjs[i], sep)
@@ -1181,11 +1277,11 @@ func (x *c06Gen) query(depth int) (string, bool) {
 }
 
 func (x *c06Gen) expr(depth int) string {
-	neg := x.g.Bool(20, "neg")
+	neg := x.u.pct(20, "neg")
 	var s string
-	if depth < 3 && x.g.Bool(24-4*depth, "group") {
+	if depth < 3 && x.u.pct(24-4*depth, "group") {
 		inner, multi := x.query(depth + 1)
-		if multi && x.g.Bool(30, "tight") {
+		if multi && x.u.pct(30, "tight") {
 			// the document's own examples: (repo:repo1 or repo:repo2), (type:repo foo) or bar
 			s = "(" + inner + ")"
 		} else {
@@ -1204,12 +1300,12 @@ func genC06Case(rt *rapid.T) c06Case {
 	g := kit.G{T: rt}
 	c := c06Case{Corpus: c06GenCorpus(g)}
 	x := newC06Gen(g, &c.Corpus)
-	n := g.Int(8, 14, "nq")
+	n := x.u.rng(40, 60, "nq")
 	for i := 0; i < n; i++ {
 		s, _ := x.query(0)
 		c.Queries = append(c.Queries, s)
 	}
-	if g.Bool(30, "viadir") {
+	if x.u.pct(30, "viadir") {
 		c.Via = "dir"
 	} else {
 		c.Via = "shard"
@@ -1380,6 +1476,12 @@ func c06Check(c *c06Case, e *c06Env, s string, cache map[string]*regexp.Regexp) 
 		r.labels = append(r.labels, "skip:oracle-error")
 		return r
 	}
+	if o.fl.autoUpper {
+		r.labels = append(r.labels, "auto:pattern-with-upper")
+	}
+	if o.fl.autoLower {
+		r.labels = append(r.labels, "auto:pattern-without-upper")
+	}
 	if o.ambiguous != "" {
 		r.labels = append(r.labels, "skip:document-silent", "silent:"+o.ambiguous)
 		return r
@@ -1440,13 +1542,16 @@ func c06Check(c *c06Case, e *c06Env, s string, cache map[string]*regexp.Regexp) 
 	if !c06SameSet(cmpWant, cmpGot) {
 		missing, extra := c06Diff(cmpWant, cmpGot)
 		d := classify(kit.Fail("docset", "parsed as %v; %s missing %q extra %q", q, what, missing, extra))
-		if o.nonASCIIUp && !hasFilematch {
-			alt := o.asciiUpper
-			if topRepo {
-				alt = c06Repos(alt)
-			}
-			if c06SameSet(alt, cmpGot) {
-				d.Known = "C06-case-auto-nonascii-upper"
+		if !hasFilematch {
+			for _, a := range o.alts {
+				set := a.set
+				if topRepo {
+					set = c06Repos(set)
+				}
+				if c06SameSet(set, cmpGot) {
+					d.Known = a.known
+					break
+				}
 			}
 		}
 		r.discrepant = d
@@ -1497,6 +1602,7 @@ func runC06(rec *kit.Recorder, c c06Case) error {
 		rec.Eval(s, nt, append(r.labels, layout)...)
 		if d := r.discrepant; d != nil {
 			if d.Known != "" {
+				rec.Add("strings_hitting:"+d.Known, 1)
 				if known == nil {
 					known = d
 				}
@@ -1520,7 +1626,7 @@ func TestVerif_C06(t *testing.T) {
 		t.Fatalf("harness: %v", err)
 	}
 	rec := kit.Open(t, "C06",
-		"rapid-generated corpora (1-3 repositories; file names and contents over disjoint alphabets) x 8-14 query strings drawn from the EBNF of doc/query_syntax.md (all fields and aliases, bare/quoted/escaped text, '-', groups '( q )' and '(a b)', or-chains, one case: and one type: per group at any position); a case = one query string on one corpus; the oracle parses the string itself and interprets it over the corpus model; non-trivial = the string uses >= 2 of {group, negation, or, case/type scope, quoting/escape} and the expected set is neither empty nor all documents; distinct by query string",
+		"rapid-generated corpora (1-3 repositories; file names and contents over disjoint alphabets) x 40-60 query strings drawn from the EBNF of doc/query_syntax.md (all fields and aliases, bare/quoted/escaped text, '-', groups '( q )' and '(a b)', or-chains, one case: and one type: per group at any position); a case = one query string on one corpus; the oracle parses the string itself and interprets it over the corpus model; non-trivial = the string uses >= 2 of {group, negation, or, case/type scope, quoting/escape} and the expected set is neither empty nor all documents; distinct by query string",
 		"bare patterns: the document does not say whether they also match file names (implementation: name or content); file-name and content alphabets are disjoint and a string is only compared when both readings select the same documents",
 		"regex: is documented as matching content; the implementation also matches file names; same treatment (both readings must agree)",
 		"meta.<field>: the document does not say whether the value regexp is anchored (implementation: unanchored); both readings must agree",
